@@ -2,6 +2,15 @@ module verif
 
 go 1.23
 
-require github.com/wrgl/wrgl v0.0.0
+require (
+	github.com/mattn/go-sqlite3 v1.14.14
+	github.com/wrgl/wrgl v0.0.0
+)
+
+require (
+	github.com/google/uuid v1.3.0 // indirect
+	github.com/klauspost/compress v1.16.7 // indirect
+	github.com/pckhoi/meow v0.0.0-20211009023351-e1fff1d3c870 // indirect
+)
 
 replace github.com/wrgl/wrgl => /repo
